@@ -170,10 +170,18 @@ func c14Cases() []c14Case {
 	return out
 }
 
-func c14RoundTrip() *Scenario {
+func c14RoundTrip() *Scenario { return c14RoundTripX(false) }
+
+// selfCancel: the handler's own request context has already been cancelled on the server side
+// (CancelRequest for its id) when it returns: what it returns is still what the caller must get.
+func c14RoundTripX(selfCancel bool) *Scenario {
+	name := "handler errors and results through a real Server/Client pair"
+	if selfCancel {
+		name += " (request cancelled on the server before the handler returns)"
+	}
 	return &Scenario{
-		Name:   "handler errors and results through a real Server/Client pair",
-		Params: map[string]any{"codes": c14Codes, "wrappers": 7, "cases": len(c14Cases())},
+		Name:   name,
+		Params: map[string]any{"codes": c14Codes, "wrappers": 7, "cases": len(c14Cases()), "cancelled_before_return": selfCancel},
 		Seq: func(r *SeqRun) {
 			cases := c14Cases()
 			for start := 0; start < len(cases); start += 250 {
@@ -193,6 +201,9 @@ func c14RoundTrip() *Scenario {
 					idx := 0
 					hd := func(ctx context.Context, req *jrpc2.Request) (any, error) {
 						c := chunk[idx]
+						if selfCancel {
+							jrpc2.ServerFromContext(ctx).CancelRequest(req.ID())
+						}
 						if c.IsValue {
 							return c.Result, nil
 						}
@@ -407,7 +418,7 @@ func c14WithData() *Scenario {
 }
 
 func c14Scenarios(tier string) []*Scenario {
-	out := []*Scenario{c14RoundTrip(), c14WithData()}
+	out := []*Scenario{c14RoundTrip(), c14RoundTripX(true), c14WithData()}
 	if tier == "quick" {
 		out = append(out,
 			c14CodeRange(-70000, 70000, "all c in [-70000, 70000]"),
